@@ -7,16 +7,18 @@
    [root_value e K]      what K is bound to at top level;   [event_deletes_name K ev]: ev is an explicit del(K);
    [c]                   use_reg c: registers on/off (both are covered: c is universally quantified);
                          const_test c: the register paths test Constant(name) (repair 8c21b75);
-                         ccow c: containers are copied before a write (repairs cec7cc4, 29e3f5f). *)
+                         ccow c: containers are copied before a write (repairs cec7cc4, 29e3f5f);
+                         strict_eq c: the same-value escape hatch of CreateOrSet is object.Identical (repair cf20a9d). *)
 From Coq Require Import List ZArith NArith.
 From GrolModel Require Import Containers ConstEnv.
 From GrolProofs Require Import ConstEnv_proofs.
 Import ListNotations.
 
 (* for every sequence of attempts of every kind, in every scope, with registers on or off: a constant-named
-   top-level binding keeps its value (object.Equals is equality on the modelled values) unless the sequence
-   contains an explicit del of that name *)
-Theorem C19_constant_stable : forall c : ccfg, ccow c = true ->
+   top-level binding keeps its value - the very same value: an integer stays an integer, 0.0 stays 0.0, in every
+   element, map value and key (object.Identical is equality on the modelled values) - unless the sequence contains
+   an explicit del of that name.  The attempts include re-assignment of == values and writes through aliases. *)
+Theorem C19_constant_stable : forall c : ccfg, ccow c = true -> strict_eq c = true ->
   forall (K : name) (v : cval) (evs : list event) (e : env),
   constant_name K = true -> root_wf e -> root_value e K = Some v ->
   forallb (fun ev => negb (event_deletes_name K ev)) evs = true ->
@@ -24,7 +26,7 @@ Theorem C19_constant_stable : forall c : ccfg, ccow c = true ->
 Proof. exact constant_stable. Qed.
 
 (* and the NAME keeps evaluating to that value from every scope *)
-Theorem C19_lookup_stable : forall c : ccfg, ccow c = true ->
+Theorem C19_lookup_stable : forall c : ccfg, ccow c = true -> strict_eq c = true ->
   forall (K : name) (v : cval) (evs : list event) (e : env) (s : scope),
   constant_name K = true -> root_wf e -> root_value e K = Some v ->
   forallb (fun ev => negb (event_deletes_name K ev)) evs = true ->
@@ -33,53 +35,79 @@ Proof. exact constant_read_stable. Qed.
 
 (* used as a parameter name or as a loop variable, the name is never rebound to another value: the attempt fails,
    or the body reads the constant's value (nil = a loop with no iteration) - registers on or off *)
-Theorem C19_not_shadowed : forall c : ccfg, const_test c = true -> ccow c = true ->
+Theorem C19_not_shadowed : forall c : ccfg, const_test c = true -> ccow c = true -> strict_eq c = true ->
   forall (K : name) (v : cval) (evs : list event) (e : env) (s : scope) (a : attempt),
   constant_name K = true -> root_wf e -> root_value e K = Some v ->
   forallb (fun ev => negb (event_deletes_name K ev)) evs = true ->
   shadowing K a ->
-  let r := snd (run_event c (run_events c e evs) (Ev s a)) in r = Err \/ r = Ok v \/ r = Ok (CV PNil).
+  let r := snd (run_event c (run_events c e evs) (Ev s a)) in r = Err \/ r = Ok v \/ r = Ok XNil.
 Proof. exact constant_not_shadowed. Qed.
 
-(* ---- the pinned code is refuted: in-place writes on large containers, and the register fast paths *)
-Definition nm (s : list N) : name := s.
+(* ---- the pinned code is refuted: in-place writes on large containers, the register fast paths, and the
+   same-value test by == *)
 Definition K_A : name := [65]%N.                  (* "A"  *)
 Definition K_PI : name := [80; 73]%N.             (* "PI" *)
-Definition arr9 : pval := PArr (map PInt [1;2;3;4;5;6;7;8;9]%Z).
-Definition map5 : pval := PMap [(1, PInt 1); (2, PInt 2); (3, PInt 3); (4, PInt 4); (5, PInt 5)]%Z.
+Definition n_b : name := [98]%N.                  (* "b"  *)
+Definition xi (z : Z) : cval := XNum (NInt z).
+Definition ki (z : Z) : key := KNum (NInt z).
+Definition arr9 : cval := XArr (map xi [1;2;3;4;5;6;7;8;9]%Z).
+Definition map5 : cval := XMap [(ki 1, xi 1); (ki 2, xi 2); (ki 3, xi 3); (ki 4, xi 4); (ki 5, xi 5)]%Z.
+Definition arr3 : cval := XArr [xi 1; xi 2; xi 3].
+Definition arr3f : cval := XArr [XNum (NFlt 4); xi 2; xi 3].   (* [1.0,2,3] *)
 
-(* A=[1..9]; A[0]=5 changes A; a big-map constant is changed by M[1]=7 and del(M[1]) *)
+(* A=[1..9]; A[0]=5 changes A; a big-map constant is changed by M[1]=7 and del(M[2]) *)
 Example C19_refuted_pinned_containers :
-  let e0 := root_env [(K_A, CV arr9)] in
-  let e1 := run_events (pinned_ccfg true) e0 [Ev STop (AIdxSet K_A 0 (PInt 5))] in
-  let m0 := root_env [(K_A, CV map5)] in
-  let m1 := run_events (pinned_ccfg false) m0 [Ev SFn (AIdxSet K_A 1 (PInt 7)); Ev STop (ADelElem K_A 2)] in
+  let e0 := root_env [(K_A, arr9)] in
+  let e1 := run_events (pinned_ccfg true) e0 [Ev STop (AIdxSet K_A (ki 0) (xi 5))] in
+  let m0 := root_env [(K_A, map5)] in
+  let m1 := run_events (pinned_ccfg false) m0 [Ev SFn (AIdxSet K_A (ki 1) (xi 7)); Ev STop (ADelElem K_A (ki 2))] in
   constant_name K_A = true /\
-  root_value e1 K_A = Some (CV (PArr (map PInt [5;2;3;4;5;6;7;8;9]%Z))) /\
-  root_value m1 K_A = Some (CV (PMap [(1, PInt 7); (3, PInt 3); (4, PInt 4); (5, PInt 5)]%Z)).
+  root_value e1 K_A = Some (XArr (map xi [5;2;3;4;5;6;7;8;9]%Z)) /\
+  root_value m1 K_A = Some (XMap [(ki 1, xi 7); (ki 3, xi 3); (ki 4, xi 4); (ki 5, xi 5)]%Z).
 Proof. vm_compute. repeat split. Qed.
 
 (* func f(PI){PI}; f(3) and for PI=0:3{PI} with registers on *)
 Example C19_refuted_pinned_registers :
-  let e0 := root_env [(K_PI, CFlt 13)] in
+  let e0 := root_env [(K_PI, XNum (NFlt 13))] in
   constant_name K_PI = true /\
-  snd (run_event (pinned_ccfg true) e0 (Ev STop (ACall K_PI (CV (PInt 3))))) = Ok (CV (PInt 3)) /\
-  snd (run_event (pinned_ccfg true) e0 (Ev SFn (AForInt K_PI 0 3))) = Ok (CV (PInt 2)) /\
-  snd (run_event (pinned_ccfg false) e0 (Ev STop (ACall K_PI (CV (PInt 3))))) = Err.
+  snd (run_event (pinned_ccfg true) e0 (Ev STop (ACall K_PI (xi 3)))) = Ok (xi 3) /\
+  snd (run_event (pinned_ccfg true) e0 (Ev SFn (AForInt K_PI 0 3))) = Ok (xi 2) /\
+  snd (run_event (pinned_ccfg false) e0 (Ev STop (ACall K_PI (xi 3)))) = Err.
 Proof. vm_compute. repeat split. Qed.
 
-(* ---- non-vacuity: the repaired code on the same inputs, both register modes; hypotheses are satisfiable *)
+(* A=[1,2,3]; A=[1.0,2,3] is accepted by the == test and A[0] becomes a float; so are A[0]=1.0, K={1:5};K={1.0:5}
+   and Z=0.0;Z=-0.0 - while the scalar N=1;N=1.0 was already refused.  Only the same-value test is the pinned one here *)
+Example C19_refuted_pinned_equals :
+  let c := mkccfg true true true false in
+  let e0 := root_env [(K_A, arr3)] in
+  let k0 := root_env [(K_A, XMap [(ki 1, xi 5)])] in
+  let z0 := root_env [(K_A, XNum (NFlt 0))] in
+  let n0 := root_env [(K_A, xi 1)] in
+  root_value (run_events c e0 [Ev STop (AAssign K_A (ELit arr3f) false)]) K_A = Some arr3f /\
+  root_value (run_events c e0 [Ev SLoop (AIdxSet K_A (ki 0) (XNum (NFlt 4)))]) K_A = Some arr3f /\
+  root_value (run_events c k0 [Ev STop (AAssign K_A (ELit (XMap [(KNum (NFlt 4), xi 5)])) true)]) K_A = Some (XMap [(KNum (NFlt 4), xi 5)]) /\
+  root_value (run_events c z0 [Ev STop (AAssign K_A (ELit (XNum NNegZero)) false)]) K_A = Some (XNum NNegZero) /\
+  snd (run_event c n0 (Ev STop (AAssign K_A (ELit (XNum (NFlt 4))) false))) = Err.
+Proof. vm_compute. repeat split. Qed.
+
+(* ---- non-vacuity: the repaired code on the same inputs, both register modes; hypotheses are satisfiable;
+   writes through aliases of the constant's value (by assignment, slice, parameter) leave it alone *)
 Example C19_ex_fixed :
-  let e0 := root_env [(K_A, CV arr9); (K_PI, CFlt 13)] in
-  let evs := [Ev STop (AIdxSet K_A 0 (PInt 5)); Ev SFn (AAssign K_PI (CV (PInt 3)) false); Ev SLoop (AIncr K_PI 1 false);
-              Ev SFn2 (ADelElem K_A 2); Ev STop (ACall K_PI (CV (PInt 3))); Ev STop (AForInt K_PI 0 3)] in
-  root_wf e0 /\ ccow (repo_ccfg true) = true /\ const_test (repo_ccfg false) = true /\
+  let e0 := root_env [(K_A, arr9); (K_PI, XNum (NFlt 13))] in
+  let evs := [Ev STop (AIdxSet K_A (ki 0) (xi 5)); Ev SFn (AAssign K_PI (ELit (xi 3)) false); Ev SLoop (AIncr K_PI 1 false);
+              Ev SFn2 (ADelElem K_A (ki 2)); Ev STop (ACall K_PI (xi 3)); Ev STop (AForInt K_PI 0 3);
+              Ev STop (AAssign n_b (EName K_A) false); Ev SFn (AIdxSet n_b (ki 3) (xi 99));
+              Ev STop (AAssign n_b (ESlice K_A 0 9) false); Ev STop (AIdxSet n_b (ki 0) (xi 98));
+              Ev STop (AAssign n_b (ECallSet K_A (ki 1) (xi 97)) false);
+              Ev STop (AAssign K_A (ELit (XArr (XNum (NFlt 4) :: map xi [2;3;4;5;6;7;8;9]%Z))) false)] in
+  root_wf e0 /\ ccow (repo_ccfg true) = true /\ const_test (repo_ccfg false) = true /\ strict_eq (repo_ccfg true) = true /\
   forallb (fun ev => negb (event_deletes_name K_A ev)) evs = true /\
-  root_value (run_events (repo_ccfg true) e0 evs) K_A = Some (CV arr9) /\
-  root_value (run_events (repo_ccfg false) e0 evs) K_PI = Some (CFlt 13) /\
-  snd (run_event (repo_ccfg true) e0 (Ev STop (ACall K_PI (CV (PInt 3))))) = Err /\
-  snd (run_event (repo_ccfg true) e0 (Ev STop (AForInt K_PI 0 3))) = Ok (CFlt 13) /\
-  snd (run_event (repo_ccfg true) e0 (Ev STop (AIdxSet K_A 0 (PInt 1)))) = Ok (CV (PInt 1)).
+  root_value (run_events (repo_ccfg true) e0 evs) K_A = Some arr9 /\
+  root_value (run_events (repo_ccfg false) e0 evs) K_PI = Some (XNum (NFlt 13)) /\
+  root_value (run_events (repo_ccfg false) e0 evs) n_b = Some (XArr (map xi [1;97;3;4;5;6;7;8;9]%Z)) /\
+  snd (run_event (repo_ccfg true) e0 (Ev STop (ACall K_PI (xi 3)))) = Err /\
+  snd (run_event (repo_ccfg true) e0 (Ev STop (AForInt K_PI 0 3))) = Ok (XNum (NFlt 13)) /\
+  snd (run_event (repo_ccfg true) e0 (Ev STop (AIdxSet K_A (ki 0) (xi 1)))) = Ok (xi 1).
 Proof.
   split.
   { eexists. split; [reflexivity|]. intros n up m H. simpl in H. destruct H as [H|[H|[]]]; discriminate. }
